@@ -20,5 +20,20 @@ Theorem C03_two_tables : forall c w i m o,
   oit o = ocnt o /\ ocnt o = N.of_nat (length (orem o)).
 Proof. exact T_C03_two_tables. Qed.
 
+(* The whole resize: key-adding insertions one after the other (any fresh distinct keys).  The
+   old table that holds L elements is released by exactly the max(1, ceil(L/R))-th of them -
+   never later, whatever the keys, the tombstones and the iteration order - and is still there
+   before (so the work is spread, not front-loaded). *)
+Theorem C03_finishes_within_ceil_L_over_R : forall c items s o s',
+  0 < cR c -> Inv (cR c) (cesz c) (s_rt s) -> lo (s_rt s) = Some o ->
+  NoDup (map (fun x => fst (fst x)) items) ->
+  (forall x, x ∈ items -> rt_abs (s_rt s) !! fst (fst x) = None) ->
+  insert_seq c items s = Some s' ->
+  N.max 1 (cdiv (ocnt o) (cR c)) <= N.of_nat (length items) ->
+  exists items1 items2 s1, items = items1 ++ items2 /\ insert_seq c items1 s = Some s1 /\
+    lo (s_rt s1) = None /\ N.of_nat (length items1) = N.max 1 (cdiv (ocnt o) (cR c)).
+Proof. exact T_C03_finishes. Qed.
+
 Print Assumptions C03_step.
+Print Assumptions C03_finishes_within_ceil_L_over_R.
 Print Assumptions C03_two_tables.
